@@ -164,10 +164,13 @@ class LPDB:
         row = self.resources[flag]
         fn = self.method("add_resource_specific_conditions_to_model")
 
+        fn = _month_param_view(fn)
+
         def call(it, obj, model, vd, month):
             func = BoundMethod(obj, self.method(row["function"]))
+            entry = PDict({"prefixes": PList(list(row["prefixes"])), "function": func, "food_name": row["food_name"]})
             kwargs = self.by_role(fn, dict(model=model, variables=vd, month=month, optimization_type=opt_type, function=func,
-                                           food_name=row["food_name"]))
+                                           food_name=row["food_name"], resource=entry))
             return it.call_function(fn, [], kwargs, obj)
 
         return self.extract("resource:" + flag, opt_type, call, preset={"consts." + flag: True})
@@ -176,7 +179,7 @@ class LPDB:
                   ("month", ("month", "m", "t")), ("optimization_type", ("optimization_type", "opt_type", "type")),
                   ("function", ("func", "function", "fn", "callback")), ("food_name", ("food_name", "name", "food")),
                   ("maximize_constraints", ("maximize_constraints", "constraints", "objectives")),
-                  ("nmonths", ("nmonths", "n_months", "n")))
+                  ("nmonths", ("nmonths", "n_months", "n")), ("resource", ("resource", "resource_entry", "entry", "row")))
 
     def by_role(self, fn, roles, partial=False):
         """keyword arguments for `fn` from values known by role: a parameter takes the value whose role its name states (or, for the
@@ -268,6 +271,31 @@ def _with(t, key, val):
 # whole-database build and obligation helpers
 
 from .rat import Interval, INF, rat_sign, in_span, solve_combination  # noqa: E402
+
+
+def _month_param_view(fn):
+    """a constraint builder that loops over the months itself (`for month in range(0, self.NMONTHS): ...` as a statement of its body, no
+    month parameter) read as the builder of one month: the loop variable becomes a parameter, the loop its body.  The templates are per
+    month class either way."""
+    import copy
+    params = [a.arg.lower() for a in fn.args.args]
+    if any(p_ in ("month", "m", "t") for p_ in params):
+        return fn
+    body = [s_ for s_ in fn.body if not (isinstance(s_, ast.Expr) and isinstance(s_.value, ast.Constant))]
+    loops = [s_ for s_ in body if isinstance(s_, ast.For) and isinstance(s_.target, ast.Name) and isinstance(s_.iter, ast.Call)
+             and getattr(s_.iter.func, "id", None) == "range"
+             and [ast.unparse(a_) for a_ in s_.iter.args] in (["0", "self.NMONTHS"], ["self.NMONTHS"]) and not s_.orelse]
+    if len(loops) != 1:
+        return fn
+    lp = loops[0]
+    i = body.index(lp)
+    new = copy.copy(fn)
+    new.args = copy.deepcopy(fn.args)
+    new.args.args = list(new.args.args) + [ast.arg(arg=lp.target.id)]
+    new.body = body[:i] + list(lp.body) + body[i + 1:]
+    ast.copy_location(new.args.args[-1], fn)
+    new._month_view_of = fn
+    return new
 
 
 def lp_model_param(fn):
